@@ -67,6 +67,20 @@ let do_blk args =
      | Some (((n, al), asm), i) -> Printf.sprintf "R %s %s %s %s" (string_of_z n) (string_of_z al) (string_of_z asm) (string_of_z i))
   | _ -> "R BADREQ"
 
+(* ---- stream kern:  K <fn> <size> <c> <aligns> <hex buf0> <hex buf1> ... *)
+let hexv c = if c <= '9' then Char.code c - 48 else (Char.code c lor 32) - 97 + 10
+let bytes_of_hex s = if s = "-" then [] else
+  List.init (String.length s / 2) (fun i -> n_of_int (hexv s.[2*i] * 16 + hexv s.[2*i+1]))
+let hex_of_bytes l = if l = [] then "-" else String.concat "" (List.map (fun b -> Printf.sprintf "%02x" (int_of_n b)) l)
+let do_kern args =
+  match args with
+  | fn :: size :: c :: _al :: bufs ->
+    let bl = List.map bytes_of_hex bufs in
+    let res = run_kernel (n_of_int (int_of_string fn)) (n_of_int (int_of_string size)) (n_of_int (int_of_string c)) bl in
+    let others = if fn = "3" then [List.hd bl] else List.tl bl in
+    String.concat " " (List.map hex_of_bytes res) ^ " |" ^ String.concat "" (List.map (fun b -> " " ^ hex_of_bytes b) others)
+  | _ -> "BADREQ"
+
 let () =
   try
     while true do
@@ -75,6 +89,7 @@ let () =
       | [] -> ()
       | "P" :: args -> print_endline (do_prng args)
       | "B" :: args -> print_endline (do_blk args)
+      | "K" :: args -> print_endline (do_kern args)
       | _ -> print_endline "BADREQ"
     done
   with End_of_file -> ()
